@@ -1,8 +1,57 @@
-(* C10 property theorems.  Nothing but statements closed by `exact`, each followed by Print Assumptions. *)
+(* C10 property theorems.  Nothing but statements closed by `exact`, each followed by Print Assumptions.
+   The statements (…_stmt) are spelled out in ProofsProps.v / ProofsCmp.v:
+     canon r = den r > 0 /\ gcd (num r) (den r) = 1;  toQ r = num r / den r in Coq's Q;  red = true is Reduce mode. *)
 From Coq Require Import ZArith QArith.
-From C10 Require Import Model ProofsBase.
+From C10 Require Import Model ProofsBase ProofsCmp ProofsProps.
 Local Open Scope Z_scope.
 
-Theorem C10_reduce_canonical_exact : forall s, 0 < den s -> canon (reduce s) /\ same (reduce s) s.
-Proof. exact reduce_spec. Qed.
+Theorem C10_canonical_zero_is_0_over_1 : Canonical_zero_stmt.        Proof. exact canonical_zero_thm. Qed.
+Print Assumptions C10_canonical_zero_is_0_over_1.
+Theorem C10_canonical_form_unique : Canonical_unique_stmt.           Proof. exact canonical_unique_thm. Qed.
+Print Assumptions C10_canonical_form_unique.
+Theorem C10_reduce_canonical_exact : Reduce_stmt.                     Proof. exact reduce_thm. Qed.
 Print Assumptions C10_reduce_canonical_exact.
+Theorem C10_add_canonical_exact : Add_stmt.                           Proof. exact add_thm. Qed.
+Print Assumptions C10_add_canonical_exact.
+Theorem C10_sub_canonical_exact : Sub_stmt.                           Proof. exact sub_thm. Qed.
+Print Assumptions C10_sub_canonical_exact.
+Theorem C10_mul_canonical_exact : Mul_stmt.                           Proof. exact mul_thm. Qed.
+Print Assumptions C10_mul_canonical_exact.
+Theorem C10_div_canonical_exact : Div_stmt.                           Proof. exact div_thm. Qed.
+Print Assumptions C10_div_canonical_exact.
+Theorem C10_neg_abs_canonical_exact : Neg_abs_stmt.                   Proof. exact neg_abs_thm. Qed.
+Print Assumptions C10_neg_abs_canonical_exact.
+Theorem C10_addin_subin_canonical_exact_any_alias : Addin_subin_stmt. Proof. exact addin_subin_thm. Qed.
+Print Assumptions C10_addin_subin_canonical_exact_any_alias.
+Theorem C10_mulin_canonical_exact_any_alias : Mulin_stmt.             Proof. exact mulin_thm. Qed.
+Print Assumptions C10_mulin_canonical_exact_any_alias.
+Theorem C10_divin_canonical_exact_any_alias : Divin_stmt.             Proof. exact divin_thm. Qed.
+Print Assumptions C10_divin_canonical_exact_any_alias.
+Theorem C10_noreduce_mode_exact : NoReduce_stmt.                      Proof. exact noreduce_thm. Qed.
+Print Assumptions C10_noreduce_mode_exact.
+Theorem C10_noreduce_mode_inplace_exact : NoReduce_inplace_stmt.      Proof. exact noreduce_inplace_thm. Qed.
+Print Assumptions C10_noreduce_mode_inplace_exact.
+Theorem C10_compare_is_sign_of_difference : Compare_stmt.             Proof. exact compare_thm. Qed.
+Print Assumptions C10_compare_is_sign_of_difference.
+Theorem C10_absCompare_is_sign_of_abs_difference : AbsCompare_stmt.   Proof. exact abscompare_thm. Qed.
+Print Assumptions C10_absCompare_is_sign_of_abs_difference.
+Theorem C10_six_operators_are_the_order_of_Q : Operators_stmt.        Proof. exact operators_thm. Qed.
+Print Assumptions C10_six_operators_are_the_order_of_Q.
+Theorem C10_trichotomy : Trichotomy_stmt.                             Proof. exact trichotomy_thm. Qed.
+Print Assumptions C10_trichotomy.
+Theorem C10_operator_complements : Complement_stmt.                   Proof. exact complement_thm. Qed.
+Print Assumptions C10_operator_complements.
+Theorem C10_ctor_integer_canonical_exact : Ctor_integer_stmt.         Proof. exact ctor_integer_thm. Qed.
+Print Assumptions C10_ctor_integer_canonical_exact.
+Theorem C10_ctor_pair_text_canonical_exact : Ctor_pair_stmt.          Proof. exact ctor_pair_thm. Qed.
+Print Assumptions C10_ctor_pair_text_canonical_exact.
+Theorem C10_ctor_double_every_finite_double_exact : Ctor_double_stmt. Proof. exact ctor_double_thm. Qed.
+Print Assumptions C10_ctor_double_every_finite_double_exact.
+Theorem C10_floor_ceil_trunc_round : Rounding_stmt.                   Proof. exact rounding_thm. Qed.
+Print Assumptions C10_floor_ceil_trunc_round.
+Theorem C10_pow_canonical_exact : Pow_stmt.                           Proof. exact pow_thm. Qed.
+Print Assumptions C10_pow_canonical_exact.
+Theorem C10_qfield_neg_inv_canonical_exact : QField_unary_stmt.       Proof. exact qfield_unary_thm. Qed.
+Print Assumptions C10_qfield_neg_inv_canonical_exact.
+Theorem C10_qfield_axpy_family_canonical_exact : QField_axpy_stmt.    Proof. exact qfield_axpy_thm. Qed.
+Print Assumptions C10_qfield_axpy_family_canonical_exact.
